@@ -173,7 +173,7 @@ def castleCands (Q : Pos) (m : Mv) : List UInt8 :=
 /-- necessary condition for `e` to have been the predecessor's e.p. square, read off `Q`: the double-pushed pawn in
     front of `e` is still there unless the move captured it (normally, or en passant); `e` and the square behind it
     are still empty unless the move went there -/
-def epPlausible (Q : Pos) (m : Mv) (e : Sq) : Bool :=
+def epTracePlausible (Q : Pos) (m : Mv) (e : Sq) : Bool :=
   let i := if Q.wtm then e.val + 8 else e.val - 8
   let j := if Q.wtm then e.val - 8 else e.val + 8
   (Q.b.getD i 0 == (if Q.wtm then WPAWN else BPAWN) || m.t.val == i || m.t == e) &&
@@ -181,7 +181,7 @@ def epPlausible (Q : Pos) (m : Mv) (e : Sq) : Bool :=
 
 /-- candidate e.p. squares of the predecessor -/
 def epCands (all : Bool) (Q : Pos) (m : Mv) : List (Option Sq) :=
-  if all then none :: (allSq.filter fun e => e.y == (if Q.wtm then 2 else 5) && epPlausible Q m e).map some
+  if all then none :: (allSq.filter fun e => e.y == (if Q.wtm then 2 else 5) && epTracePlausible Q m e).map some
   else if kind (Q.at m.t) == 6 then [none, some m.t] else [none]
 
 def cands (all : Bool) (Q : Pos) : List UnMv :=
